@@ -206,3 +206,4 @@ MANIFEST = {
             'was not needed: a history is one drawn list, shrinks as one value and is replayed '
             'from JSON without the library.',
 }
+MANIFEST['text'] += (' ' + "Histories also contain the operation 'other' (a second Solver on the same file is created, solved and read); the status/criterion summary of a solve is read when its epoch ends, so the order of getter calls in the history is the order the object sees; threads in {None, 1, 2}; 15% of the cases have lecturer targets outside their quotas.")
